@@ -1,5 +1,276 @@
+/* IO chains built from the public constructors, driven chunk by chunk.
+ *   chain <shape> <chunk sizes|-> <hex data>
+ * shape := malloc | buffer:<cap> | file | faulty:<fail feed index|-1>:<fail done 0|1>
+ *        | b64enc(<shape>) | b64dec(<shape>) | plexany(<shape>,..) | plexall(<shape>,..)
+ *        | hash:<name>(<shape>) | def(<shape>) | inf(<shape>)
+ * result: <buffers accepted> <done verdict T|F|-> <sink contents in left-to-right order...>  */
 #include "h.h"
+#include "hooks.h"
+
+#define MAXSINK 32
+
+typedef enum { K_MALLOC, K_BUFFER, K_FILE, K_FAULTY } skind_t;
+
+typedef struct {
+    jose_io_t io;
+    int fail_feed;
+    bool fail_done;
+    int calls;
+    uint8_t *d;
+    size_t n;
+} faulty_t;
+
+typedef struct {
+    skind_t kind;
+    void *mbuf;            /* malloc sink */
+    size_t mlen;
+    uint8_t *bbuf;         /* buffer sink: capacity + canary */
+    size_t bcap, blen;
+    FILE *f;               /* file sink */
+    char *fmem;
+    size_t fsz;
+    faulty_t *fy;
+    jose_io_t *own;        /* the harness keeps its own reference to every sink */
+} sinkrec_t;
+
+static sinkrec_t sinks[MAXSINK];
+static int nsinks;
+
+static bool
+fy_feed(jose_io_t *io, const void *in, size_t len)
+{
+    faulty_t *f = (faulty_t *) io;
+    int c = f->calls++;
+    if (f->fail_feed == c)
+        return false;
+    f->d = realloc(f->d, f->n + len + 1);
+    memcpy(f->d + f->n, in, len);
+    f->n += len;
+    return true;
+}
+
+static bool
+fy_done(jose_io_t *io)
+{
+    faulty_t *f = (faulty_t *) io;
+    return !f->fail_done;
+}
+
+static void
+fy_free(jose_io_t *io)
+{
+    /* owned by the harness record; released after printing */
+}
+
+static const char *P;   /* parse cursor */
+
+static bool
+eat(const char *s)
+{
+    size_t l = strlen(s);
+    if (strncmp(P, s, l) == 0) {
+        P += l;
+        return true;
+    }
+    return false;
+}
+
+static long
+num(void)
+{
+    char *e = NULL;
+    long v = strtol(P, &e, 10);
+    P = e;
+    return v;
+}
+
+static jose_io_t *build(void);
+
+static jose_io_t *
+build_plex(bool all)
+{
+    jose_io_t *nx[17] = { NULL };
+    int n = 0;
+    jose_io_t *r = NULL;
+    if (*P == ')') {
+        P++;
+        return jose_io_multiplex(NULL, nx, all);
+    }
+    for (;;) {
+        nx[n] = build();
+        if (!nx[n]) goto out;
+        n++;
+        if (*P == ',') { P++; continue; }
+        if (*P == ')') { P++; break; }
+        goto out;
+    }
+    r = jose_io_multiplex(NULL, nx, all);
+out:
+    for (int i = 0; i < n; i++)
+        jose_io_decref(nx[i]);
+    return r;
+}
+
+static jose_io_t *
+wrap1(jose_io_t *(*mk)(jose_io_t *))
+{
+    jose_io_t *n = build();
+    if (!n || *P != ')') { jose_io_decref(n); return NULL; }
+    P++;
+    jose_io_t *r = mk(n);
+    jose_io_decref(n);
+    return r;
+}
+
+static const jose_hook_alg_t *cur_alg;
+
+static jose_io_t *mk_hash(jose_io_t *n) { return cur_alg->hash.hsh(cur_alg, NULL, n); }
+static jose_io_t *mk_def(jose_io_t *n) { return cur_alg->comp.def(cur_alg, NULL, n); }
+static jose_io_t *mk_inf(jose_io_t *n) { return cur_alg->comp.inf(cur_alg, NULL, n); }
+
+static jose_io_t *
+build(void)
+{
+    sinkrec_t *s = &sinks[nsinks];
+    if (eat("malloc")) {
+        memset(s, 0, sizeof(*s));
+        s->kind = K_MALLOC;
+        nsinks++;
+        s->own = jose_io_malloc(NULL, &s->mbuf, &s->mlen);
+        return jose_io_incref(s->own);
+    }
+    if (eat("buffer:")) {
+        memset(s, 0, sizeof(*s));
+        s->kind = K_BUFFER;
+        s->bcap = (size_t) num();
+        s->bbuf = malloc(s->bcap + 64);
+        memset(s->bbuf, 0xA5, s->bcap + 64);
+        s->blen = s->bcap;
+        nsinks++;
+        s->own = jose_io_buffer(NULL, s->bbuf, &s->blen);
+        return jose_io_incref(s->own);
+    }
+    if (eat("file")) {
+        memset(s, 0, sizeof(*s));
+        s->kind = K_FILE;
+        s->f = open_memstream(&s->fmem, &s->fsz);
+        nsinks++;
+        s->own = jose_io_file(NULL, s->f);
+        return jose_io_incref(s->own);
+    }
+    if (eat("faulty:")) {
+        memset(s, 0, sizeof(*s));
+        s->kind = K_FAULTY;
+        faulty_t *f = calloc(1, sizeof(*f));
+        f->fail_feed = (int) num();
+        P++; /* ':' */
+        f->fail_done = num() != 0;
+        f->io.feed = fy_feed;
+        f->io.done = fy_done;
+        f->io.free = fy_free;
+        f->io.refs = 1;
+        s->fy = f;
+        nsinks++;
+        return &f->io;
+    }
+    if (eat("b64enc(")) return wrap1(jose_b64_enc_io);
+    if (eat("b64dec(")) return wrap1(jose_b64_dec_io);
+    if (eat("plexany(")) return build_plex(false);
+    if (eat("plexall(")) return build_plex(true);
+    if (eat("hash:")) {
+        char name[32];
+        size_t i = 0;
+        while (*P && *P != '(' && i < sizeof(name) - 1) name[i++] = *P++;
+        name[i] = 0;
+        if (*P == '(') P++;
+        cur_alg = jose_hook_alg_find(JOSE_HOOK_ALG_KIND_HASH, name);
+        if (!cur_alg) return NULL;
+        return wrap1(mk_hash);
+    }
+    if (eat("def(")) {
+        cur_alg = jose_hook_alg_find(JOSE_HOOK_ALG_KIND_COMP, "DEF");
+        return wrap1(mk_def);
+    }
+    if (eat("inf(")) {
+        cur_alg = jose_hook_alg_find(JOSE_HOOK_ALG_KIND_COMP, "DEF");
+        return wrap1(mk_inf);
+    }
+    return NULL;
+}
+
+static void
+c_chain(void)
+{
+    nsinks = 0;
+    P = F[1];
+    jose_io_t *io = build();
+    buf_t data = unhex(F[3]);
+    if (!io) {
+        fputs("BUILD-FAILED", stdout);
+        goto out;
+    }
+    size_t off = 0;
+    int accepted = 0;
+    bool ok = true;
+    if (strcmp(F[2], "-") != 0) {
+        const char *c = F[2];
+        while (*c) {
+            char *e = NULL;
+            size_t l = (size_t) strtoul(c, &e, 10);
+            c = (*e == ',') ? e + 1 : e;
+            if (off + l > data.n) l = data.n - off;
+            if (!io->feed(io, data.p + off, l)) { ok = false; break; }
+            off += l;
+            accepted++;
+        }
+    }
+    printf("%d ", accepted);
+    if (ok)
+        fputs(io->done(io) ? "T" : "F", stdout);
+    else
+        fputs("-", stdout);
+    for (int i = 0; i < nsinks; i++) {
+        sinkrec_t *s = &sinks[i];
+        putchar(' ');
+        switch (s->kind) {
+        case K_MALLOC: puthex(s->mbuf, s->mlen); break;
+        case K_BUFFER: {
+            bool cok = true;
+            for (int j = 0; j < 64; j++) if (s->bbuf[s->bcap + j] != 0xA5) cok = false;
+            if (!cok || s->blen > s->bcap) fputs("OVERFLOW:", stdout);
+            puthex(s->bbuf, s->blen <= s->bcap ? s->blen : s->bcap);
+            break;
+        }
+        case K_FILE: fflush(s->f); puthex((uint8_t *) s->fmem, s->fsz); break;
+        case K_FAULTY: puthex(s->fy->d, s->fy->n); break;
+        }
+    }
+out:
+    {
+        void *stolen[MAXSINK] = { NULL };
+        for (int i = 0; i < nsinks; i++)
+            if (sinks[i].kind == K_MALLOC)
+                stolen[i] = jose_io_malloc_steal(&sinks[i].mbuf);
+        jose_io_decref(io);
+        for (int i = 0; i < nsinks; i++) {
+            jose_io_decref(sinks[i].own);
+            if (sinks[i].kind == K_MALLOC)
+                sinks[i].mbuf = stolen[i];
+        }
+    }
+    for (int i = 0; i < nsinks; i++) {
+        sinkrec_t *s = &sinks[i];
+        switch (s->kind) {
+        case K_MALLOC: free(s->mbuf); break;
+        case K_BUFFER: free(s->bbuf); break;
+        case K_FILE: fclose(s->f); free(s->fmem); break;
+        case K_FAULTY: free(s->fy->d); free(s->fy); break;
+        }
+    }
+    free(data.p);
+}
 
 const cmd_t cmds_io[] = {
+    { "chain", c_chain },
     { NULL, NULL }
 };
